@@ -17,6 +17,7 @@ class LoopSpec:
     def __init__(self, ordinal, modifies, locals_, inv, tags, unroll=None):
         self.ordinal, self.modifies, self.locals, self.inv, self.tags = ordinal, modifies, locals_, inv, tags
         self.unroll = unroll
+        self.step = None      # fn(c, L, head) -> (name, term): what ONE iteration does (head state -> end of body)
 
 
 class Contract:
@@ -29,6 +30,7 @@ class Contract:
         self.modifies = list(modifies)
         self.tags = list(tags)          # properties that rely on this function's safety obligations
         self._requires, self._ensures, self._raises = [], [], []
+        self.free = {}
         self.loops = {}
         self.expected_dead = []
         REGISTRY[qual] = self
@@ -57,6 +59,12 @@ class Contract:
             return fn
         return deco
 
+    def loop_step(self, ordinal):
+        def deco(fn):
+            self.loops[ordinal].step = fn
+            return fn
+        return deco
+
     # evaluation
     def eval_requires(self, c):
         out = []
@@ -79,7 +87,7 @@ class Contract:
                 out.append((name, term, tags, uses) if with_uses else (name, term, tags))
         return out
 
-    def eval_raises(self, c):
+    def eval_raises(self, c, for_caller=False):
         """-> list of (exc, name, when_term, [(pname, term)], fields, tags, iff)"""
         out = []
         for exc, name, fn, fields, tags, iff in self._raises:
@@ -88,6 +96,8 @@ class Contract:
             for item in fn(c):
                 if item[0] == "when":
                     when = tobool(item[1])
+                elif for_caller and len(item) > 2 and item[2] and item[2].get("assume") is False:
+                    continue      # a top-level (property) clause: proved, not handed to callers
                 else:
                     posts.append((item[0], tobool(item[1])))
             out.append((exc, name, when, posts, fields, tags, iff))
